@@ -134,9 +134,14 @@ def run_history(hist, hid, flags, scope, redeclare=False):
 
     decorators: dict = {}
 
+    keep_plain = {d_["base"] for d_ in hist if d_["base"] and d_["baseform"] != "slotted"}
+
     def dec_s(i, d, w):
         def deco(cls):
-            ms._P[i] = cls
+            # (the undecorated class normally dies right after decoration -- `@slotted @dataclass class C` keeps only the
+            # result; it is kept here only when a later class of the history derives from it)
+            if i in keep_plain:
+                ms._P[i] = cls
             # (a decorator object kept by the caller and applied to several classes: one per flag pair and history)
             if (d, w) not in decorators:
                 decorators[(d, w)] = classes.slotted(dict=d, weakref=w)
